@@ -36,8 +36,19 @@ def add_design(ck, name, r, constants):
         ck.violation("design model %s violates %s" % (name, r.invariant), [r.out[-6000:]], tag="model")
 
 
+def _clean():
+    # TLC leaves a trace-exploration spec next to the module when an invariant / property fails
+    import glob
+    for f in glob.glob(os.path.join(SPEC, "*_TTrace_*")):
+        try:
+            os.remove(f)
+        except OSError:
+            pass
+
+
 def validate(ck, trace, tag="t"):
     n_ev, rej, st = vc.validate_trace(SPEC, "ParamsTrace", TRACE_CFG, trace)
+    _clean()
     ck.events += n_ev
     ck.traces += vc.count_scenarios(trace)
     ck.handle_rejections(rej, signature, tag=tag)
@@ -78,6 +89,7 @@ def corruption_selftest(ck, trace, wd, mutate):
     bad = os.path.join(wd, "corrupt.ndjson")
     open(bad, "w").write("\n".join(lines) + "\n")
     _, rej, _ = vc.validate_trace(SPEC, "ParamsTrace", TRACE_CFG, bad, parallel=1)
+    _clean()
     ck.extra["corrupted_trace_rejected"] = bool(rej)
     if not rej:
         raise vc.MachineryError("corruption self-test: a trace with an altered field at event %d was accepted" % i)
@@ -90,6 +102,7 @@ def corruption_selftest(ck, trace, wd, mutate):
 
 def replay(prop, path):
     n_ev, rej, st = vc.validate_trace(SPEC, "ParamsTrace", TRACE_CFG, path, parallel=1)
+    _clean()
     for rj in rej:
         vc.log("VIOLATION property=%s replay=%s" % (prop, path))
         vc.log("  %s at event #%d: %s" % (rj.reason, rj.index, json.dumps(rj.event)[:600]))
